@@ -4,7 +4,8 @@ import t2t, corr, semrun, sem, cref
 
 OBLIGATIONS = ['Yalafi.C04_latexError_anchor', 'Yalafi.C04_restamp', 'Yalafi.C04_genRepl_anchor',
                'Yalafi.C04_heading_e2e', 'Yalafi.C04_items_e2e', 'Yalafi.C04_heading_current',
-               'Yalafi.C04_ref_cite_e2e', 'Yalafi.C04_ref_span', 'Yalafi.C03_ref_no_key', 'Yalafi.C04_ref_cite_e2e_current', 'Yalafi.C04_ref_example_current', 'Yalafi.C04_ref_example_eval', 'Yalafi.C04_theorem_e2e', 'Yalafi.C04_theorem_kept', 'Yalafi.C04_theorem_span', 'Yalafi.C04_theorem_e2e_current', 'Yalafi.C04_theorem_example_current', 'Yalafi.C04_theorem_example_eval']
+               'Yalafi.C04_ref_cite_e2e', 'Yalafi.C04_ref_span', 'Yalafi.C03_ref_no_key', 'Yalafi.C04_ref_cite_e2e_current', 'Yalafi.C04_ref_example_current', 'Yalafi.C04_ref_example_eval', 'Yalafi.C04_theorem_e2e', 'Yalafi.C04_theorem_kept', 'Yalafi.C04_theorem_span', 'Yalafi.C04_theorem_e2e_current', 'Yalafi.C04_theorem_example_current', 'Yalafi.C04_theorem_example_eval',
+               'Yalafi.C04_labelled_items_e2e', 'Yalafi.C04_labelled_items_origin', 'Yalafi.C04_labelled_items_current', 'Yalafi.C04_labelled_items_example_current', 'Yalafi.C04_labelled_items_doc1_eval', 'Yalafi.C04_labelled_items_doc2_eval']
 
 def judge(case, res):
     fails = []
